@@ -54,6 +54,21 @@ CLAIMED = {
             "reference resolver is the property oracle.",
             "Trusted: Lean kernel (core-only), harness+orchestrator. Not modelled: symlinks, '..', case folding, weakly_canonical; a source "
             "file is abstracted to package line, imports, class and function names.", "DESIGN.md §4 C19"),
+    "C13": ("Lean 4 theorems about the lexer and parser models (total; the lexer loop provably terminates by consuming input; accepted "
+            "token lists end in Eof) + exact differential correspondence of the whole front end on mutated/truncated/random byte strings "
+            "with an ASan+UBSan build, a shared analyser instance vs a fresh one, and the import-loader stage",
+            "Proof on the model for every byte string (lexer) and every token list (parser result shape); PARTIAL: parser fuel "
+            "sufficiency, the analyser and loader stages and memory safety of the real C++ are observed (sanitizers, timeout, 0 "
+            "OUT-OF-FUEL), not proved.",
+            "Trusted: Lean kernel, translator for the keyword/binding tables, harness+orchestrator, ASan/UBSan.", "DESIGN.md §4 C13"),
+    "C14": ("Lean 4: decide-checked theorem that the binding-power table regenerated from parser.cpp has the documented level order, "
+            "left associativity and prefix/postfix placement + round-trip theorem for the Pratt core instantiated with that table + exact "
+            "differential correspondence of the whole-grammar parser model (trees with positions) + render/parse round trip on the real parser",
+            "Proof obligations re-checked against the current source through the translator; the round-trip theorem is PARTIAL (Pratt "
+            "core: binary/prefix/postfix/parentheses); calls, indexing, member access, casts, statements and class members are covered by "
+            "exhaustive small trees and random larger ones, rendered minimally and with redundant parentheses.",
+            "Trusted: Lean kernel, table translator, harness+orchestrator. Known finding: generic-type lookahead claims  Id < ... > Id.",
+            "DESIGN.md §4 C14"),
 }
 PENDING_REASON = "check not built yet in this revision of /verif (planned: Lean model + correspondence, see DESIGN.md §4)"
 
